@@ -53,7 +53,9 @@ func ffgBin(pat string, x, y *ffg.Element, f func(z, x, y *ffg.Element) *ffg.Ele
 	switch pat {
 	case "", "n":
 		z = ffg.NewElement()
-		z[0] = 0xdeadbeef // dirty destination
+		for i := range z {
+			z[i] = 0xdeadbeef00000001 + uint64(i) // every limb of the destination is stale garbage
+		} // dirty destination
 		ret := f(z, x, y)
 		if ret != z {
 			return "!returned-other-object"
@@ -94,7 +96,9 @@ func ffgUn(pat string, x *ffg.Element, f func(z, x *ffg.Element) *ffg.Element) s
 	switch pat {
 	case "", "n":
 		z = ffg.NewElement()
-		z[0] = 0xdeadbeef
+		for i := range z {
+			z[i] = 0xdeadbeef00000001 + uint64(i) // every limb of the destination is stale garbage
+		}
 		ret := f(z, x)
 		if ret != z {
 			return "!returned-other-object"
@@ -186,7 +190,9 @@ func ffgOp(op, pat string, args []string, a *argTrack) string {
 			z.Exp(*z, e)
 		} else {
 			z = ffg.NewElement()
-			z[0] = 0xdeadbeef
+			for i := range z {
+				z[i] = 0xdeadbeef00000001 + uint64(i) // every limb of the destination is stale garbage
+			}
 			z.Exp(*x, e)
 			if *x != x0 {
 				return ffgRes(z) + "!operand-modified"
@@ -255,19 +261,25 @@ func ffgOp(op, pat string, args []string, a *argTrack) string {
 	case "setbigint":
 		need(args, 1)
 		z := ffg.NewElement()
-		z[0] = 0xdeadbeef
+		for i := range z {
+			z[i] = 0xdeadbeef00000001 + uint64(i) // every limb of the destination is stale garbage
+		}
 		z.SetBigInt(a.Int(args[0]))
 		return ffgRes(z)
 	case "setstring":
 		need(args, 1)
 		z := ffg.NewElement()
-		z[0] = 0xdeadbeef
+		for i := range z {
+			z[i] = 0xdeadbeef00000001 + uint64(i) // every limb of the destination is stale garbage
+		}
 		z.SetString(args[0])
 		return ffgRes(z)
 	case "setbytes":
 		need(args, 1)
 		z := ffg.NewElement()
-		z[0] = 0xdeadbeef
+		for i := range z {
+			z[i] = 0xdeadbeef00000001 + uint64(i) // every limb of the destination is stale garbage
+		}
 		z.SetBytes(a.Bytes(args[0]))
 		return ffgRes(z)
 	case "setuint64":
@@ -277,7 +289,9 @@ func ffgOp(op, pat string, args []string, a *argTrack) string {
 			panic("harness: bad uint64")
 		}
 		z := ffg.NewElement()
-		z[0] = 0xdeadbeef
+		for i := range z {
+			z[i] = 0xdeadbeef00000001 + uint64(i) // every limb of the destination is stale garbage
+		}
 		z.SetUint64(v)
 		z2 := ffgFromU64(v)
 		if *z != *z2 {
@@ -287,7 +301,9 @@ func ffgOp(op, pat string, args []string, a *argTrack) string {
 	case "setinterface":
 		need(args, 2)
 		z := ffg.NewElement()
-		z[0] = 0xdeadbeef
+		for i := range z {
+			z[i] = 0xdeadbeef00000001 + uint64(i) // every limb of the destination is stale garbage
+		}
 		var arg interface{}
 		switch args[0] {
 		case "element":
